@@ -4,6 +4,7 @@ From stdpp Require Import gmap strings.
 From EV Require Import Base.Str Model.Reply Model.Dispatch Model.TableTypes Model.KeyFuncs Model.Acl Model.AclWorld.
 From EV Require Import Spec.SpecAcl Proofs.AclProofs Proofs.TableObligations Gen.CmdTable Gen.KeyExtract.
 From EV Require Import Model.Value Model.Keyspace Model.Prog Model.CmdGeneric.
+From EV Require Model.CmdKeyspace.
 From EV Require Import Proofs.KeyspaceLemmas Proofs.KeyCover Proofs.KeyCoverCmds Proofs.KeyCoverTheorems.
 Local Open Scope string_scope.
 Local Open Scope list_scope.
@@ -65,13 +66,13 @@ Proof. exact key_extract_agrees. Qed.
     ([KeysExist], [GetExpiry], [GetValues]) satisfies [R], every key it passes to a writing primitive
     ([SetValues], [SetExpiry], [DeleteKey]) satisfies [W], whatever the primitives answer; a program
     that flushes is within nothing.  For every handler of [handler_of] (list, hash, set, sorted set,
-    generic, string — all modelled data commands) except FLUSHDB / FLUSHALL, and every argument vector
+    generic, string — all data commands) except FLUSHDB / FLUSHALL / RANDOMKEY, and every argument vector
     whose first word is the command's name: when the key function ([key_extract], equal to the Go
     [KeyExtractionFunc]s on the regenerated rows by [C06_key_extract_agrees]) reports channels / read
     keys / write keys, the handler reads only read or write keys and writes only write keys ... *)
 Theorem C06_keys_cover :
   forall name h argv ch rd wr,
-    handler_of name = Some h -> lower (arg argv 0) = name -> is_flush name = false ->
+    handler_of name = Some h -> lower (arg argv 0) = name -> keyless_scan name = false ->
     key_extract name "" argv = KxOk ch rd wr ->
     within_l (rd ++ wr) wr (h argv).
 Proof. exact keys_cover. Qed.
@@ -79,7 +80,7 @@ Proof. exact keys_cover. Qed.
 (** ... when it reports an error (wrong arity) the handler touches no key at all ... *)
 Theorem C06_keys_cover_error :
   forall name h argv,
-    handler_of name = Some h -> lower (arg argv 0) = name -> is_flush name = false ->
+    handler_of name = Some h -> lower (arg argv 0) = name -> keyless_scan name = false ->
     key_extract name "" argv = KxErr ->
     within (fun _ => False) (fun _ => False) (h argv).
 Proof. exact keys_cover_error. Qed.
@@ -87,7 +88,7 @@ Proof. exact keys_cover_error. Qed.
 (** ... and it does one or the other (no panic, no missing function). *)
 Theorem C06_keys_cover_total :
   forall name h argv,
-    handler_of name = Some h -> lower (arg argv 0) = name -> is_flush name = false ->
+    handler_of name = Some h -> lower (arg argv 0) = name -> keyless_scan name = false ->
     (exists ch rd wr, key_extract name "" argv = KxOk ch rd wr) \/ key_extract name "" argv = KxErr.
 Proof. exact keys_cover_total. Qed.
 
@@ -113,7 +114,7 @@ Proof. exact @within_frame. Qed.
 (** Both, for the handlers: only reported write keys of the selected database change. *)
 Theorem C06_keys_cover_effect :
   forall name h argv d s,
-    handler_of name = Some h -> lower (arg argv 0) = name -> is_flush name = false ->
+    handler_of name = Some h -> lower (arg argv 0) = name -> keyless_scan name = false ->
     st_maxmem s = 0%Z ->
     forall d' k, lentry (fst (run_seq d (h argv) s)) d' k <> lentry s d' k ->
       d' = d /\ exists ch rd wr, key_extract name "" argv = KxOk ch rd wr /\ k ∈ wr.
@@ -125,7 +126,7 @@ Proof. exact keys_cover_effect. Qed.
     any key the user may not read. *)
 Theorem C06_gate_keys_cover :
   forall glob_match a c argv p h,
-    lookup_cmd argv = LCmd p None -> handler_of (cr_name p) = Some h -> is_flush (cr_name p) = false ->
+    lookup_cmd argv = LCmd p None -> handler_of (cr_name p) = Some h -> keyless_scan (cr_name p) = false ->
     a_require a = true -> authorize glob_match a c p None argv = true ->
     exists r, a_conns a !! c = Some r /\ c_auth r = true /\
       within (may_read glob_match (deref a (c_user r))) (may_write glob_match (deref a (c_user r))) (h argv).
@@ -133,7 +134,7 @@ Proof. exact gate_keys_cover. Qed.
 
 Theorem C06_gate_effect_permitted :
   forall glob_match a c argv p h d s,
-    lookup_cmd argv = LCmd p None -> handler_of (cr_name p) = Some h -> is_flush (cr_name p) = false ->
+    lookup_cmd argv = LCmd p None -> handler_of (cr_name p) = Some h -> keyless_scan (cr_name p) = false ->
     a_require a = true -> authorize glob_match a c p None argv = true -> st_maxmem s = 0%Z ->
     exists r, a_conns a !! c = Some r /\ c_auth r = true /\
       (forall d' k, lentry (fst (run_seq d (h argv) s)) d' k <> lentry s d' k ->
@@ -156,6 +157,20 @@ Theorem C06_flush_effect_refuted :
   lentry (fst (run_seq 1 (handle_flush ["flushall"]) flush_witness_state)) 0 "k" = None.
 Proof. exact flush_effect_refuted. Qed.
 
+(** Finding KF-C06-randomkey-keyless: RANDOMKEY reports no key; whatever its random source proposes it
+    looks up ([KeysExist]), and its reply names a key of the database: a user whose key patterns match
+    nothing but whose command rules include RANDOMKEY learns the names of keys he may not read. *)
+Theorem C06_randomkey_keys_cover_refuted :
+  forall k cands, exists argv,
+    lower (arg argv 0) = "randomkey" /\ key_extract "randomkey" "" argv = KxOk [] [] [] /\
+    ~ within_l ([] ++ []) [] (CmdKeyspace.handle_randomkey (k :: cands) argv).
+Proof. exact randomkey_keys_cover_refuted. Qed.
+
+Theorem C06_randomkey_effect_refuted :
+  snd (run_seq 0 (CmdKeyspace.handle_randomkey ["k"] ["randomkey"]) flush_witness_state) = RBulk "k" /\
+  snd (run_seq 0 (CmdKeyspace.handle_randomkey ["k"] ["randomkey"]) (init_state 0)) = RBulk "".
+Proof. exact randomkey_effect_refuted. Qed.
+
 Print Assumptions C06_authorize_iff_allowed.
 Print Assumptions C06_denied_no_effect.
 Print Assumptions C06_not_allowed_no_effect.
@@ -172,6 +187,8 @@ Print Assumptions C06_gate_keys_cover.
 Print Assumptions C06_gate_effect_permitted.
 Print Assumptions C06_flush_keys_cover_refuted.
 Print Assumptions C06_flush_effect_refuted.
+Print Assumptions C06_randomkey_keys_cover_refuted.
+Print Assumptions C06_randomkey_effect_refuted.
 
 (** Non-vacuity: a user with read keys a* and all commands; MGET with one permitted and one forbidden
     key is denied in both orders, with two permitted keys it is allowed. *)
